@@ -502,6 +502,31 @@ def intersections_lattice(ctx):
                 ok = False
                 w["exception"] = "%s: %s" % (type(e).__name__, e)
             ctx.ensure("3d:polygon-collection-x-segment-collection-elementwise", ok, witness=w)
+    # a SINGLE 3D polygon against collections that contain an element in the plane of the polygon (dependent element, masked)
+    from geometer.shapes import SegmentCollection as _SC
+    sq0 = Polygon(g.Point(0, 0, 1), g.Point(2, 0, 1), g.Point(2, 2, 1), g.Point(0, 2, 1))
+    segs = {"pierce": ([1, 1, 0, 1], [1, 1, 2, 1], [(1, 1, 1)]), "inplane": ([-1, 1, 1, 1], [3, 1, 1, 1], []), "short": ([0.5, 0.5, 0, 1], [0.5, 0.5, 0.5, 1], []),
+            "miss": ([3, 3, 0, 1], [3, 3, 2, 1], []), "pierce2": ([0.5, 1.5, 3, 1], [0.5, 1.5, -1, 1], [(0.5, 1.5, 1)])}
+    for combo in itertools.permutations(sorted(segs), 3):
+        want = sorted(tuple(float(c) for c in p) for k in combo for p in segs[k][2])
+        arr = np.array([[segs[k][0], segs[k][1]] for k in combo], dtype=float)
+        for what in ("polygon.intersect(segments)", "segments.intersect(polygon)", "polygon.intersect(lines)"):
+            w = dict(kinds=combo, call=what)
+            try:
+                if what == "polygon.intersect(lines)":
+                    res = sq0.intersect(g.LineCollection([g.Line(g.Point(a), g.Point(b)).array for a, b in arr]))
+                    wantl = sorted(tuple(float(c) for c in p) for k in combo for p in (segs[k][2] if k != "short" else [(0.5, 0.5, 1)]))
+                    got = sorted(tuple(round(float(c), 6) + 0.0 for c in x.normalized_array[:3]) for r in res for x in (r if r.free_indices > 0 else [r]))
+                    ok = got == wantl
+                else:
+                    res = sq0.intersect(_SC(arr)) if what.startswith("polygon") else _SC(arr).intersect(sq0)
+                    got = sorted(tuple(round(float(c), 6) + 0.0 for c in x.normalized_array[:3]) for r in res for x in (r if r.free_indices > 0 else [r]))
+                    ok = got == want
+                w["got"] = got
+            except Exception as e:
+                ok = False
+                w["exception"] = "%s: %s" % (type(e).__name__, str(e)[:100])
+            ctx.ensure("3d:single-polygon-x-collection-with-a-coplanar-element", ok, witness=w)
     sq = Polygon(g.Point(0, 0, 1), g.Point(2, 0, 1), g.Point(2, 2, 1), g.Point(0, 2, 1))
     for (p, q, want) in [((1, 1, 0), (1, 1, 2), 1), ((3, 3, 0), (3, 3, 2), 0), ((0, 0, 0), (2, 2, 2), 1), ((1, 1, 2), (1, 2, 3), 1), ((5, 5, 0), (6, 5, 0), 0),
                          ((0, 0, 0), (1, 0, 0), 0), ((0.5, 0.5, 0), (0.5, 0.5, 5), 1), ((2, 1, 0), (2, 1, 3), 1)]:
